@@ -371,6 +371,12 @@ def run(ctx, load):
     check_thread_run(P, ctx)
     check_call_join(P, ctx)
     check_attach(P, ctx)
+    # the method cache lives in the type records every thread dispatches through: a slot is written once, with the scan's final answer
+    # (a provisional value is what another thread reads; shared with C08.cache-wiring)
+    from . import rules_c08
+    P8 = load(None, 'default', [rules_c08.WITNESS])
+    ctx.config = 'default'
+    ctx.borrow('C13.shared-cache-holds-final-answers', 3, lambda: rules_c08.check_cache(P8, ctx))
     check_thread_assign(P, ctx)
     check_foreign_objects(P, ctx)
     check_with_locks(P, ctx)
